@@ -23,9 +23,11 @@ const (
 	lAgg
 	lTPos
 	lTNeg
+	lPosNeg // mentioned positively and then negated in the same rule body
+	lNegPos // negated and then mentioned positively
 )
 
-var labelNames = []string{"-", "pos", "neg", "agg", "tpos", "tneg"}
+var labelNames = []string{"-", "pos", "neg", "agg", "tpos", "tneg", "pos+neg", "neg+pos"}
 
 var c03Names = []string{"a", "b", "c", "d"}
 
@@ -50,6 +52,10 @@ func c03Program(n int, g []int) analysis.Program {
 				body = append(body, at)
 			case lNeg:
 				body = append(body, ast.NegAtom{Atom: at})
+			case lPosNeg:
+				body = append(body, at, ast.NegAtom{Atom: at})
+			case lNegPos:
+				body = append(body, ast.NegAtom{Atom: at}, at)
 			case lTPos:
 				body = append(body, ast.TemporalLiteral{Literal: at, Interval: &iv})
 			case lTNeg:
@@ -92,6 +98,10 @@ func c03Source(n int, g []int) string {
 				body = append(body, at)
 			case lNeg:
 				body = append(body, "!"+at)
+			case lPosNeg:
+				body = append(body, at, "!"+at)
+			case lNegPos:
+				body = append(body, "!"+at, at)
 			case lTPos:
 				body = append(body, at+"@[S"+c03Names[w]+",E"+c03Names[w]+"]")
 			case lTNeg:
@@ -143,7 +153,7 @@ func c03Oracle(n int, g []int) (bool, [][]bool) {
 	for u := 0; u < n; u++ {
 		for w := 0; w < n; w++ {
 			l := g[u*n+w]
-			if (l == lNeg || l == lAgg || l == lTNeg) && (u == w || reach[w][u]) {
+			if (l == lNeg || l == lAgg || l == lTNeg || l == lPosNeg || l == lNegPos) && (u == w || reach[w][u]) {
 				fail = true
 			}
 		}
@@ -201,7 +211,7 @@ func c03Check(n int, g []int, strata []analysis.Nodeset, p2s map[ast.PredicateSy
 			if l == lAbsent {
 				continue
 			}
-			strict := l == lNeg || l == lAgg || l == lTNeg
+			strict := l == lNeg || l == lAgg || l == lTNeg || l == lPosNeg || l == lNegPos
 			kindSuffix := ""
 			if l == lTPos || l == lTNeg {
 				kindSuffix = "-temporal"
@@ -250,9 +260,9 @@ func c03(r *rt.Run) {
 		alphabet []int
 		text     bool
 	}
-	spaces := []space{{3, []int{lAbsent, lPos, lNeg, lAgg, lTPos}, true}}
+	spaces := []space{{3, []int{lAbsent, lPos, lNeg, lAgg, lTPos, lPosNeg}, true}}
 	if r.Thorough() {
-		spaces = []space{{3, []int{lAbsent, lPos, lNeg, lAgg, lTPos, lTNeg}, true}, {4, []int{lAbsent, lPos, lNeg}, false}, {4, []int{lAbsent, lPos, lTPos, lAgg}, false}}
+		spaces = []space{{3, []int{lAbsent, lPos, lNeg, lAgg, lTPos, lTNeg, lPosNeg}, true}, {3, []int{lAbsent, lPos, lNeg, lNegPos, lPosNeg}, true}, {4, []int{lAbsent, lPos, lNeg}, false}, {4, []int{lAbsent, lPos, lTPos, lAgg}, false}}
 	} else {
 		spaces = append(spaces, space{4, []int{lAbsent, lPos, lNeg}, false})
 	}
@@ -262,10 +272,6 @@ func c03(r *rt.Run) {
 			total *= len(sp.alphabet)
 		}
 		stride := 1
-		if !r.Thorough() && sp.n == 4 {
-			stride = 48 // quick: every 48th n=4 graph (documented as non-exhaustive part)
-			r.Capped("n=4 space sampled with stride 48 in the quick tier (n=3 space complete)")
-		}
 		chunks := 4096
 		rt.ForRange(chunks, func(ci int) {
 			if r.Expired("C03 graph enumeration") {
@@ -273,11 +279,14 @@ func c03(r *rt.Run) {
 			}
 			for code := ci * stride; code < total; code += chunks * stride {
 				g := decodeGraph(code, sp.n, len(sp.alphabet), sp.alphabet)
-				c03One(r, sp.n, g, sp.text && code%7 == 0)
+				if !canonicalGraph(sp.n, g) {
+					continue // an isomorphic copy (predicates renamed) is enumerated instead
+				}
+				c03One(r, sp.n, g, sp.text && code%61 == 0)
 			}
 		})
 	}
-	r.Finish("every labelled dependency graph over 3 IDB predicates (labels absent/pos/neg/agg/temporal-pos[/temporal-neg]) and over 4 (reduced labels), as analysis.Program and (a 1/7 slice of n=3) as source text through parse+Analyze; " +
+	r.Finish("every labelled dependency graph over 3 IDB predicates (labels absent/pos/neg/agg/temporal-pos/pos+neg[/temporal-neg/neg+pos]) and over 4 (reduced labels), up to renaming of predicates (only the lexicographically least relabelling is run), as analysis.Program and (a 1/61 slice of n=3) as source text through parse+Analyze; " +
 		"non-trivial = graph has a cycle or a negative/aggregating/temporal edge; distinct by construction")
 }
 
@@ -354,4 +363,39 @@ func c03One(r *rt.Run, n int, g []int, text bool) {
 	if pv != nil {
 		r.Violate("panic", fmt.Sprintf("%v at %s", pv, rt.ShortStack(st)), w2)
 	}
+}
+
+var permCache = map[int][][]int{}
+
+func init() { permCache[3] = permutations(3); permCache[4] = permutations(4) }
+
+// canonicalGraph reports whether g is the lexicographically smallest among its relabellings.
+func canonicalGraph(n int, g []int) bool {
+	for _, p := range permCache[n] {
+		// h[p[u]*n+p[w]] = g[u*n+w]; compare h with g lexicographically
+		less := false
+		for i := 0; i < n*n && !less; i++ {
+			// h[i]: find u,w with p[u]*n+p[w] == i
+			pu, pw := i/n, i%n
+			u, w := -1, -1
+			for k := 0; k < n; k++ {
+				if p[k] == pu {
+					u = k
+				}
+				if p[k] == pw {
+					w = k
+				}
+			}
+			hv := g[u*n+w]
+			if hv < g[i] {
+				less = true
+			} else if hv > g[i] {
+				break
+			}
+		}
+		if less {
+			return false
+		}
+	}
+	return true
 }
